@@ -724,20 +724,35 @@ fn fault_signature(f: &Fault, bytes: &[u8]) -> (String, String) {
         }
     };
     let over = full.must_err().or(slim.must_err());
-    let feature = match over {
-        Some(o) => format!("LEN field longer than the remaining input (field kind={}, declared length {})", o.kind, len_class(o.declared)),
-        None => {
-            if full.max_depth >= 100 {
-                "deeply nested embedded messages".to_string()
-            } else {
-                match &full.stop {
-                    pbref::Stop::Odd(s) => format!("input with {s}"),
-                    _ => "well-formed input".to_string(),
+    // "memory allocation of N bytes failed"
+    let alloc_n: Option<u128> = f
+        .stderr
+        .split("memory allocation of ")
+        .nth(1)
+        .and_then(|r| r.split(' ').next())
+        .and_then(|n| n.parse().ok());
+    let sig = if let (FaultKind::Died(_), Some(n)) = (&f.kind, alloc_n) {
+        if n > bytes.len() as u128 {
+            "decoder aborts the process: allocates the declared length of a string/bytes field before checking it against the input".to_string()
+        } else {
+            format!("decoder {what}")
+        }
+    } else {
+        let feature = match over {
+            Some(o) => format!("LEN field longer than the remaining input (field kind={}, declared length {})", o.kind, len_class(o.declared)),
+            None => {
+                if full.max_depth >= 100 {
+                    "deeply nested embedded messages".to_string()
+                } else {
+                    match &full.stop {
+                        pbref::Stop::Odd(s) => format!("input with {s}"),
+                        _ => "well-formed input".to_string(),
+                    }
                 }
             }
-        }
+        };
+        format!("decoder {what} on {feature}")
     };
-    let sig = format!("decoder {what} on {feature}");
     let detail = format!(
         "entry point {} on a {}-byte input: {}; stderr of the dying process: {:?}; reference walker: {:?}, max nesting depth {}",
         target_name(f.stage),
